@@ -670,6 +670,13 @@ func (g *Gen) bigFrozenCase(mode int) {
 	g.emit("q dict %s tag aut=all lo=* hi=* probe=.", o)
 	g.emit("q post %s tag . ex=nil fl=111 ops=%s", o, g.nexts(nd/30+2))
 	g.emit("q post %s tag . ex=%s fl=111 ops=%s", o, intList(few), g.nexts(nd/30+2))
+	// two private states, each staying in its own chunk: the first documents of chunk 0 for one,
+	// chunk 1 for the other, alternately (whatever one decompresses must not reach the other)
+	sa, sb := g.fresh("st"), g.fresh("st")
+	for v := 0; v < 8; v++ {
+		g.emit("q dv %s %s fields=uniq,body doc=%d", o, sa, v)
+		g.emit("q dv %s %s fields=uniq,body doc=%d", o, sb, 1030+v)
+	}
 	st := g.fresh("st")
 	st2 := g.fresh("st")
 	for _, d := range []int{0, 1, 1023, 1024, 1025, nd - 1, 512, 1030, 3} {
